@@ -284,7 +284,11 @@ func (g *treeGen) leaf(t *rapid.T) *model.Node {
 	if kind == model.A {
 		if g.o.Vars && rapid.IntRange(1, 100).Draw(t, "avar") > 100-g.o.VarPct {
 			av := &model.AVar{Name: g.nm.draw(t), Min: 0, Max: -1}
-			switch rapid.IntRange(0, 4).Draw(t, "abounds") {
+			switch rapid.IntRange(0, 5).Draw(t, "abounds") {
+			case 5:
+				// an upper bound around the widths a length could be squeezed into (no limit is documented for it)
+				av.Min = rapid.IntRange(0, 3).Draw(t, "amin")
+				av.Max = rapid.SampledFrom([]int{255, 256, 65535, 65536, 16777215, 16777216, 16777217, 1<<31 - 1, 1 << 31, 1<<32 - 1, 1 << 32, 1 << 53, 1<<63 - 1}).Draw(t, "amaxBig")
 			case 1:
 				av.Min = rapid.IntRange(0, 9).Draw(t, "amin")
 				av.Max = av.Min
@@ -301,6 +305,9 @@ func (g *treeGen) leaf(t *rapid.T) *model.Node {
 		return &model.Node{Kind: model.A, Str: genASCII(t, g.o.ASCIIMax)}
 	}
 	n := rapid.IntRange(0, g.o.MaxElems).Draw(t, "nelems")
+	if g.o.Vars && rapid.IntRange(0, 39).Draw(t, "manyElems") == 39 {
+		n = rapid.IntRange(15, 40).Draw(t, "manyN") // one item with many positions (and so possibly many variables)
+	}
 	node := &model.Node{Kind: kind, Elems: make([]model.Elem, n)}
 	for i := range node.Elems {
 		if g.o.Vars && rapid.IntRange(1, 100).Draw(t, "isvar") > 100-g.o.VarPct {
@@ -402,6 +409,7 @@ var nameAlphabets = []string{
 	"АБВГДежзий",
 	"測試消息名前",
 	"😀🚀✓→≤",
+	"ıſŉǰΐİẞⱥⱦȺ", // case mapping changes the UTF-8 length of these
 }
 
 func genMsgName(t *rapid.T) string {
@@ -411,7 +419,7 @@ func genMsgName(t *rapid.T) string {
 	n := rapid.IntRange(1, 10).Draw(t, "nameLen")
 	var sb strings.Builder
 	for i := 0; i < n; i++ {
-		alpha := []rune(nameAlphabets[rapid.SampledFrom([]int{0, 0, 0, 0, 1, 2, 3, 4}).Draw(t, "alpha")])
+		alpha := []rune(nameAlphabets[rapid.SampledFrom([]int{0, 0, 0, 0, 1, 2, 3, 4, 5}).Draw(t, "alpha")])
 		sb.WriteRune(alpha[rapid.IntRange(0, len(alpha)-1).Draw(t, "nc")])
 	}
 	s := sb.String()
